@@ -168,17 +168,22 @@ class Backend:
                 if sum(ostate[: circuit.n_modes]) == 0:
                     continue
                 p = Permanent.calculate(circuit.U_full, input_state.s, ostate)
-                if abs(p) ** 2 > settings.sampler_probability_threshold:
-                    # Only care about non-loss modes
-                    ostate = State(ostate[: circuit.n_modes])  # noqa: PLW2901
-                    if ostate in pdist:
-                        pdist[ostate] += abs(p) ** 2
-                    else:
-                        pdist[ostate] = abs(p) ** 2
+                # Only care about non-loss modes
+                ostate = State(ostate[: circuit.n_modes])  # noqa: PLW2901
+                if ostate in pdist:
+                    pdist[ostate] += abs(p) ** 2
+                else:
+                    pdist[ostate] = abs(p) ** 2
             # Work out zero photon component before saving to unique results
             total_prob = sum(pdist.values())
             if total_prob < 1 and circuit.loss_modes > 0:
                 pdist[State([0] * circuit.n_modes)] = 1 - total_prob
+            # Discard outputs below threshold once loss modes are combined
+            pdist = {
+                s: p
+                for s, p in pdist.items()
+                if p > settings.sampler_probability_threshold
+            }
         elif self.backend == "slos":
             # Add extra states for loss modes here when included
             if circuit.loss_modes > 0:
@@ -186,12 +191,17 @@ class Backend:
             full_dist = SLOS.calculate(circuit.U_full, input_state)
             # Combine results to remote lossy modes
             for s, p in full_dist.items():
-                if abs(p) ** 2 > settings.sampler_probability_threshold:
-                    new_s = State(s[: circuit.n_modes])
-                    if new_s in pdist:
-                        pdist[new_s] += abs(p) ** 2
-                    else:
-                        pdist[new_s] = abs(p) ** 2
+                new_s = State(s[: circuit.n_modes])
+                if new_s in pdist:
+                    pdist[new_s] += abs(p) ** 2
+                else:
+                    pdist[new_s] = abs(p) ** 2
+            # Discard outputs below threshold once loss modes are combined
+            pdist = {
+                s: p
+                for s, p in pdist.items()
+                if p > settings.sampler_probability_threshold
+            }
         elif self.backend == "clifford":
             raise BackendError(
                 "Probability distribution calculation not supported for "
